@@ -20,16 +20,27 @@ pub struct L2Scen {
     pub stdin_seed: Option<u8>,
     pub verify_output: bool,
     pub cli_writer: bool,
+    /// one injected I/O fault (iohook): (op, path suffix, k-th call, errno) — a single write to the output or a single read
+    /// of the first seed file fails; every other call works. A clone that fails because of it is fine; one that still
+    /// reports success is held to the same oracle as a fault-free run.
+    #[serde(default)]
+    pub fault: Option<(String, String, u32, i32)>,
 }
 
 pub fn l2scen_strategy(base: BoxedStrategy<Scenario>) -> impl Strategy<Value = L2Scen> {
-    (base, l2::cli_chunker_strategy(), any::<bool>(), prop_oneof![2 => Just(None), 1 => (0u8..4).prop_map(Some)], any::<bool>(), any::<bool>()).prop_map(
-        |(mut scen, chunker, http, stdin_seed, verify_output, cli_writer)| {
+    let fault = prop_oneof![
+        10 => Just(None),
+        2 => (0u32..10).prop_map(|k| Some(("write".to_string(), "o.out".to_string(), k, libc::EIO))),
+        1 => (0u32..10).prop_map(|k| Some(("write".to_string(), "o.out".to_string(), k, libc::EFBIG))),
+        1 => (0u32..3).prop_map(|k| Some(("read".to_string(), "seed0.bin".to_string(), k, libc::EIO))),
+    ];
+    (base, l2::cli_chunker_strategy(), any::<bool>(), prop_oneof![2 => Just(None), 1 => (0u8..4).prop_map(Some)], any::<bool>(), (any::<bool>(), fault)).prop_map(
+        |(mut scen, chunker, http, stdin_seed, verify_output, (cli_writer, fault))| {
             scen.cfg.chunker = chunker;
             // --verify-output hashes the whole device, so on a block device longer than the source it reports a
             // mismatch by construction (observed; outside the listed properties) — not combined here.
             let verify_output = verify_output && !scen.block_dev;
-            L2Scen { scen, http, stdin_seed, verify_output, cli_writer }
+            L2Scen { scen, http, stdin_seed, verify_output, cli_writer, fault }
         },
     )
 }
@@ -237,7 +248,8 @@ pub fn l2_scenario(prop: &str, c: &L2Scen, rec: &mut CaseRec, nontrivial: &dyn F
         rec.excluded = Some("collision_guard".into());
         return Ok(());
     }
-    let o = execute(prop, c, &e, None, None)?;
+    let hook = c.fault.as_ref().map(|f| l2::Hook { fail: vec![f.clone()], ..Default::default() });
+    let o = execute(prop, c, &e, hook, None)?;
     let dir = worker_dir(prop);
     let mut not_judged: Option<&'static str> = None;
     let mut output_differs = false;
@@ -249,6 +261,10 @@ pub fn l2_scenario(prop: &str, c: &L2Scen, rec: &mut CaseRec, nontrivial: &dyn F
         // checks that observe reads or writes (C06, C13) judge their own oracle only
         let judges_output = !matches!(prop, "C06" | "C13");
         if !o.run.ok() {
+            if c.fault.is_some() {
+                not_judged = Some("clone_failed_under_the_injected_fault");
+                return Ok(());
+            }
             if judges_output {
                 return Err(format!("bita clone failed: {}", o.run.describe()));
             }
@@ -278,6 +294,7 @@ pub fn l2_scenario(prop: &str, c: &L2Scen, rec: &mut CaseRec, nontrivial: &dyn F
     classify_scenario(rec, s, &e);
     rec.level = Some("L2");
     rec.class_if(c.http, "http");
+    rec.class_if(c.fault.is_some(), "clone_succeeded_with_an_injected_fault_(or_the_fault_was_never_reached)");
     rec.class_if(c.stdin_seed.map(|i| (i as usize) < e.seeds.len()).unwrap_or(false), "stdin_seed");
     nontrivial(s, &e, rec);
     Ok(())
